@@ -1164,6 +1164,7 @@ func runC18On(c *Ctx, binEnv string, n int, conc []int) {
 	c18Pipelined(c, srv, c18Cases(c, n/8+40))
 	c18DistinctSecrets(c, srv, n)
 	c18SameParams(c, srv, c.N(6, 60))
+	c18AfterHostile(c, srv, c18Cases(c, n/6+150))
 	c18HeadThenBody(c, srv, c18Cases(c, 60))
 	if !srv.alive() {
 		c.R.Violate("C18|server|died|", "the server process exited during the well-formed workload", "none", nil, "alive", "exited; see server log")
@@ -1173,7 +1174,7 @@ func runC18On(c *Ctx, binEnv string, n int, conc []int) {
 func init() {
 	register(&Prop{
 		ID: "C18",
-		Rule: "the real server binary (built from the working tree) runs on a loopback port; well-formed requests to all ten endpoints are generated over every field present/absent, digits/hash spellings incl. unknown ones, raw and structured suites, secrets with surrounding white space, counters/timestamps/periods/skews of the C01-C06 domains, from 1..32 client goroutines over reused and fresh connections; each response is compared with the in-process library result for exactly the request's parameters AND the independent reference model; generated codes are fed back to the matching validate endpoint; 2..16 different requests are pipelined on one TCP connection (bytes cut into segments at seeded places) and the i-th answer is judged as the answer to the i-th request; pairs whose second head travels with the first request and whose second body follows the first answer; thousands of requests with secrets never seen before in one server process, with early secrets coming back after 10..50000 others in fresh spellings; one secret and parameter set on one connection with timestamps second by second across step boundaries, walks over adjacent and bit-related steps and counters and validation along them (observed.same_parameter_history_requests); identical requests without a timestamp repeated as the clock moves on (periods 1 and 2 s), each verdict bracketed by the instants of its exchange; " +
+		Rule: "the real server binary (built from the working tree) runs on a loopback port; well-formed requests to all ten endpoints are generated over every field present/absent, digits/hash spellings incl. unknown ones, raw and structured suites, secrets with surrounding white space, counters/timestamps/periods/skews of the C01-C06 domains, from 1..32 client goroutines over reused and fresh connections; each response is compared with the in-process library result for exactly the request's parameters AND the independent reference model; generated codes are fed back to the matching validate endpoint; 2..16 different requests are pipelined on one TCP connection (bytes cut into segments at seeded places) and the i-th answer is judged as the answer to the i-th request; pairs whose second head travels with the first request and whose second body follows the first answer; thousands of requests with secrets never seen before in one server process, with early secrets coming back after 10..50000 others in fresh spellings; one secret and parameter set on one connection with timestamps second by second across step boundaries, walks over adjacent and bit-related steps and counters and validation along them (observed.same_parameter_history_requests); well-formed requests sent directly after a request to the same endpoint that is not well-formed (two documents back to back, trailing text, truncated, wrong JSON type, empty; observed.well_formed_requests_after_a_not_well_formed_one); identical requests without a timestamp repeated as the clock moves on (periods 1 and 2 s), each verdict bracketed by the instants of its exchange; " +
 			"distinct_nontrivial counts distinct (endpoint, body, query) requests judged",
 		Run: func(c *Ctx) {
 			nowDone := make(chan struct{})
